@@ -727,7 +727,7 @@ def gen_cases(ctx: Ctx) -> List[Tuple[str, Dict[str, Any]]]:
             for k in sweep_points(solo["yield_info"]["W"]):
                 cases.append((f"reverse-opcode/{name}", dict(sc, start="W", switchW=[k])))
     # (E) random programs under random fine-grained schedules
-    for _ in range(ctx.n(500, 6000)):
+    for _ in range(ctx.n(500, 20000)):
         cases.append(("random", random_case(rng)))
     return cases
 
@@ -916,7 +916,7 @@ def _evaluate(ctx: Ctx, cases: List[Tuple[str, Dict[str, Any]]], correspond: boo
         st.traces_validated += 1
         mo = model_obs(m)
         if mo != i or m.get("stuck") or not m.get("done", True):
-            ctx.disagree(stream, _short_case(case), _brief(mo, i), _brief(i, mo))
+            ctx.disagree(stream, case, _brief(mo, i), _brief(i, mo))
     for i, (ln, m, im) in enumerate(zip(lines, models, impls)):
         if i in (0, len(lines) // 3, (2 * len(lines)) // 3, len(lines) - 1):
             st.sample({"case": _short_case(metas[i][1]), "stream": metas[i][0],
@@ -978,7 +978,17 @@ def search(ctx: Ctx):
 
 
 def replay(ctx: Ctx, r):
+    if "char" not in r:
+        return _replay_tie(r)
     res = run_case(r)
+    _print_run(r, res)
+    for sig, desc in res["verdicts"]:
+        print("FAILS:", sig, desc)
+    print("verdict:", "property violated on this input" if res["verdicts"] else "holds on this input")
+    return 1 if res["verdicts"] else 0
+
+
+def _print_run(r, res):
     print("char", r["char"], "init", r["init"], "prologue", r["prologue"], "loop", r["loop"], "worker", r["worker"])
     print("schedule: start", r.get("start", "L"), "switchL", r.get("switchL"), "switchW", r.get("switchW"),
           "granularity", r.get("gran", "line"))
@@ -987,11 +997,34 @@ def replay(ctx: Ctx, r):
             info = res["yield_info"][t]
             if k < len(info):
                 print(f"  thread {t} hands over before {info[k][0]}:{info[k][1]}")
-    print("shared accesses in order:", " ".join(res["sched_part"]))
+    print("shared accesses in order (scheduled section):", " ".join(res["sched_part"]))
     print("operation results (last three = GET /accessories, GET /accessories, GET /characteristics after completion):",
           res["impl"]["results"])
     print("events per connection:", res["impl"]["delivered"])
-    for sig, desc in res["verdicts"]:
-        print("FAILS:", sig, desc)
-    print("verdict:", "property violated on this input" if res["verdicts"] else "holds on this input")
-    return 1 if res["verdicts"] else 0
+
+
+def _replay_tie(payload) -> int:
+    """Replay of a `no-failing-input-found` file: re-run the recorded disagreeing cases on the real
+    code and on the model and show whether they still differ (no property verdict is attached)."""
+    from common import run_model
+
+    ds = [d for d in payload.get("correspondence_disagreements", []) if isinstance(d.get("case"), dict)]
+    if payload.get("broken_proof_obligations"):
+        print("broken proof obligations:", payload["broken_proof_obligations"])
+    still = 0
+    for d in ds[:3]:
+        case = d["case"]
+        res = run_case(case)
+        _print_run(case, res)
+        m = run_model("C20", [res["line"]])[0]
+        mo = model_obs(m)
+        differs = mo != res["impl"] or m.get("stuck") or not m.get("done", True)
+        print("model :", _brief(mo, res["impl"]) if differs else "(same accesses, results and events)")
+        print("impl  :", _brief(res["impl"], mo) if differs else "(same)")
+        for sig, desc in res["verdicts"]:
+            print("FAILS:", sig, desc)
+            still += 1
+        still += 1 if differs else 0
+    print("verdict:", "model and implementation still differ on the recorded case(s)" if still
+          else "model and implementation agree on the recorded case(s)")
+    return 1 if still else 0
